@@ -291,9 +291,9 @@ func init() {
 			if dg := rp.Header["Digest"]; dg != "SHA-256="+base64.StdEncoding.EncodeToString(sum[:]) {
 				viol("digest", "pub.addResponseHeaders", kind, fmt.Sprintf("Digest=%q does not match the written bytes", dg))
 			}
-			if rp.Writes != 1 {
-				viol("write-count", site, kind, fmt.Sprintf("%d Write calls", rp.Writes))
-			}
+			// the statement fixes the bytes written, not the number of Write
+			// calls they arrive in (rp.Body is their concatenation): counted only
+			r.Count(fmt.Sprintf("write_calls.%d", rp.Writes), 1)
 			r.Count("bodies_compared."+kind, 1)
 			r.NonTrivial(sc.Name + "|" + jstr(supplied) + fmt.Sprint(sc.Cfg.ClockUnix))
 		}
@@ -338,7 +338,7 @@ func init() {
 			judge(sc, sc.Requests[0].Kind, sup)
 			return r.Finish()
 		}
-		n := 1500
+		n := 6000
 		if thorough() {
 			n = 80000
 		}
@@ -369,7 +369,7 @@ func init() {
 			})
 		}
 		// handler: every type
-		reps := 4
+		reps := 12
 		if thorough() {
 			reps = 300
 		}
